@@ -4,6 +4,7 @@ that does not end in a violation is reproduced, with the same fuel, by the run u
 configuration `cfg'` (limits raised or removed); only the call counters of the two states differ.
 -/
 import XrayProofs.CoreLimits
+import Lean
 namespace XrayModel.CoreLimitsSim
 open XrayModel.Core XrayModel.CoreLimits
 
@@ -357,5 +358,418 @@ theorem ex_not_viol_iff {α} (x : Except Res α) : exViol x = false ↔ ∀ k, x
   cases x with
   | ok a => simp [exViol]
   | error r => cases r <;> simp [exViol, Res.isViol]
+
+/-! ### need-based exactness: the limited run against the instrumented run `evalI` -/
+
+/-- the configuration with the three limits set -/
+def cfgL (tco : Bool) (Ld Lc Lr : Nat) : Cfg :=
+  { depthLimit := some Ld, callLimit := some Lc, recLimit := some Lr, tco := tco }
+
+@[simp] theorem cfgL_tco (tco Ld Lc Lr) : (cfgL tco Ld Lc Lr).tco = tco := rfl
+@[simp] theorem cfgL_depth (tco Ld Lc Lr) : (cfgL tco Ld Lc Lr).depthLimit = some Ld := rfl
+@[simp] theorem cfgL_call (tco Ld Lc Lr) : (cfgL tco Ld Lc Lr).callLimit = some Lc := rfl
+@[simp] theorem cfgL_rec (tco Ld Lc Lr) : (cfgL tco Ld Lc Lr).recLimit = some Lr := rfl
+
+/-- the state of the limited run as a function of the instrumented state (`c0` = counter at the start) -/
+def TI (c0 : Nat) (s : StI) : St := { out := s.out, calls := c0 + s.calls }
+
+@[simp] theorem TI_out (c0 s) : (TI c0 s).out = s.out := rfl
+@[simp] theorem TI_calls (c0 s) : (TI c0 s).calls = c0 + s.calls := rfl
+theorem TI_mk (c0 o c h r) : TI c0 { out := o, calls := c, maxH := h, maxRec := r } = { out := o, calls := c0 + c } := rfl
+
+def mapTI (c0 : Nat) (p : Res × StI) : Res × St := (p.1, TI c0 p.2)
+def mapTIE {α : Type} (c0 : Nat) (p : Except Res α × StI) : Except Res α × St := (p.1, TI c0 p.2)
+@[simp] theorem mapTI_mk (c0 r s) : mapTI c0 (r, s) = (r, TI c0 s) := rfl
+@[simp] theorem mapTIE_mk {α} (c0) (r : Except Res α) (s) : mapTIE c0 (r, s) = (r, TI c0 s) := rfl
+
+/-- no limit is reached by the instrumented counters: every frame height created is below the depth
+limit, the calls made (on top of `c0`) below the call limit, every tail-iteration count within the
+recursion limit -/
+def WithinL (Ld Lc Lr c0 : Nat) (s : StI) : Prop := s.maxH < Ld ∧ c0 + s.calls < Lc ∧ s.maxRec ≤ Lr
+
+structure SimI (tco : Bool) (Ld Lc Lr c0 : Nat) (n : Nat) : Prop where
+  eval : ∀ fr e tail s, WithinL Ld Lc Lr c0 (evalI n tco fr e tail s).2 →
+    eval n (cfgL tco Ld Lc Lr) fr e tail (TI c0 s) = mapTI c0 (evalI n tco fr e tail s)
+  callNamed : ∀ fr f args tail s, WithinL Ld Lc Lr c0 (callNamedI n tco fr f args tail s).2 →
+    callNamed n (cfgL tco Ld Lc Lr) fr f args tail (TI c0 s) = mapTI c0 (callNamedI n tco fr f args tail s)
+  builtin : ∀ fr f args tail s, WithinL Ld Lc Lr c0 (builtinI n tco fr f args tail s).2 →
+    builtin n (cfgL tco Ld Lc Lr) fr f args tail (TI c0 s) = mapTI c0 (builtinI n tco fr f args tail s)
+  callVal : ∀ fr c args tail s, WithinL Ld Lc Lr c0 (callValI n tco fr c args tail s).2 →
+    callVal n (cfgL tco Ld Lc Lr) fr c args tail (TI c0 s) = mapTI c0 (callValI n tco fr c args tail s)
+  evalList : ∀ fr es s, WithinL Ld Lc Lr c0 (evalListI n tco fr es s).2 →
+    evalList n (cfgL tco Ld Lc Lr) fr es (TI c0 s) = mapTIE c0 (evalListI n tco fr es s)
+  mkClos : ∀ fr f s, WithinL Ld Lc Lr c0 (mkClosI n tco fr f s).2 →
+    mkClos n (cfgL tco Ld Lc Lr) fr f (TI c0 s) = mapTI c0 (mkClosI n tco fr f s)
+  evalDflts : ∀ fr ps s, WithinL Ld Lc Lr c0 (evalDfltsI n tco fr ps s).2 →
+    evalDflts n (cfgL tco Ld Lc Lr) fr ps (TI c0 s) = mapTIE c0 (evalDfltsI n tco fr ps s)
+  callUser : ∀ h c args s, WithinL Ld Lc Lr c0 (callUserI n tco h c args s).2 →
+    callUser n (cfgL tco Ld Lc Lr) h c args (TI c0 s) = mapTI c0 (callUserI n tco h c args s)
+  tramp : ∀ h c args rec s, WithinL Ld Lc Lr c0 (trampI n tco h c args rec s).2 →
+    tramp n (cfgL tco Ld Lc Lr) h c args rec (TI c0 s) = mapTI c0 (trampI n tco h c args rec s)
+  evalDecls : ∀ fr ds s, WithinL Ld Lc Lr c0 (evalDeclsI n tco fr ds s).2 →
+    evalDecls n (cfgL tco Ld Lc Lr) fr ds (TI c0 s) = mapTIE c0 (evalDeclsI n tco fr ds s)
+
+/-! the counters of a finished sub-run are below those of the whole run: facts for `omega` -/
+section mono
+variable {n : Nat} {tco : Bool}
+theorem mI_eval {fr e tail s r s'} (h : evalI n tco fr e tail s = (r, s')) :
+    s.calls ≤ s'.calls ∧ s.maxH ≤ s'.maxH ∧ s.maxRec ≤ s'.maxRec := by
+  have := (monoAt tco n).eval fr e tail s; rw [h] at this; exact this
+theorem mI_callNamed {fr f args tail s r s'} (h : callNamedI n tco fr f args tail s = (r, s')) :
+    s.calls ≤ s'.calls ∧ s.maxH ≤ s'.maxH ∧ s.maxRec ≤ s'.maxRec := by
+  have := (monoAt tco n).callNamed fr f args tail s; rw [h] at this; exact this
+theorem mI_builtin {fr f args tail s r s'} (h : builtinI n tco fr f args tail s = (r, s')) :
+    s.calls ≤ s'.calls ∧ s.maxH ≤ s'.maxH ∧ s.maxRec ≤ s'.maxRec := by
+  have := (monoAt tco n).builtin fr f args tail s; rw [h] at this; exact this
+theorem mI_callVal {fr c args tail s r s'} (h : callValI n tco fr c args tail s = (r, s')) :
+    s.calls ≤ s'.calls ∧ s.maxH ≤ s'.maxH ∧ s.maxRec ≤ s'.maxRec := by
+  have := (monoAt tco n).callVal fr c args tail s; rw [h] at this; exact this
+theorem mI_evalList {fr es s r s'} (h : evalListI n tco fr es s = (r, s')) :
+    s.calls ≤ s'.calls ∧ s.maxH ≤ s'.maxH ∧ s.maxRec ≤ s'.maxRec := by
+  have := (monoAt tco n).evalList fr es s; rw [h] at this; exact this
+theorem mI_mkClos {fr f s r s'} (h : mkClosI n tco fr f s = (r, s')) :
+    s.calls ≤ s'.calls ∧ s.maxH ≤ s'.maxH ∧ s.maxRec ≤ s'.maxRec := by
+  have := (monoAt tco n).mkClos fr f s; rw [h] at this; exact this
+theorem mI_evalDflts {fr ps s r s'} (h : evalDfltsI n tco fr ps s = (r, s')) :
+    s.calls ≤ s'.calls ∧ s.maxH ≤ s'.maxH ∧ s.maxRec ≤ s'.maxRec := by
+  have := (monoAt tco n).evalDflts fr ps s; rw [h] at this; exact this
+theorem mI_evalDecls {fr ds s r s'} (h : evalDeclsI n tco fr ds s = (r, s')) :
+    s.calls ≤ s'.calls ∧ s.maxH ≤ s'.maxH ∧ s.maxRec ≤ s'.maxRec := by
+  have := (monoAt tco n).evalDecls fr ds s; rw [h] at this; exact this
+theorem within_of_le {Ld Lc Lr c0 : Nat} {s s' : StI} (hle : StI.le s s') (h : WithinL Ld Lc Lr c0 s') :
+    WithinL Ld Lc Lr c0 s := by
+  unfold WithinL StI.le at *; omega
+variable {Ld Lc Lr c0 : Nat}
+theorem mW_eval {fr e tail s} (h : WithinL Ld Lc Lr c0 (evalI n tco fr e tail s).2) : WithinL Ld Lc Lr c0 s :=
+  within_of_le ((monoAt tco n).eval fr e tail s) h
+theorem mW_callNamed {fr f args tail s} (h : WithinL Ld Lc Lr c0 (callNamedI n tco fr f args tail s).2) : WithinL Ld Lc Lr c0 s :=
+  within_of_le ((monoAt tco n).callNamed fr f args tail s) h
+theorem mW_builtin {fr f args tail s} (h : WithinL Ld Lc Lr c0 (builtinI n tco fr f args tail s).2) : WithinL Ld Lc Lr c0 s :=
+  within_of_le ((monoAt tco n).builtin fr f args tail s) h
+theorem mW_callVal {fr c args tail s} (h : WithinL Ld Lc Lr c0 (callValI n tco fr c args tail s).2) : WithinL Ld Lc Lr c0 s :=
+  within_of_le ((monoAt tco n).callVal fr c args tail s) h
+theorem mW_evalList {fr es s} (h : WithinL Ld Lc Lr c0 (evalListI n tco fr es s).2) : WithinL Ld Lc Lr c0 s :=
+  within_of_le ((monoAt tco n).evalList fr es s) h
+theorem mW_mkClos {fr f s} (h : WithinL Ld Lc Lr c0 (mkClosI n tco fr f s).2) : WithinL Ld Lc Lr c0 s :=
+  within_of_le ((monoAt tco n).mkClos fr f s) h
+theorem mW_evalDflts {fr ps s} (h : WithinL Ld Lc Lr c0 (evalDfltsI n tco fr ps s).2) : WithinL Ld Lc Lr c0 s :=
+  within_of_le ((monoAt tco n).evalDflts fr ps s) h
+theorem mW_evalDecls {fr ds s} (h : WithinL Ld Lc Lr c0 (evalDeclsI n tco fr ds s).2) : WithinL Ld Lc Lr c0 s :=
+  within_of_le ((monoAt tco n).evalDecls fr ds s) h
+theorem mW_callUser {h' c args s} (h : WithinL Ld Lc Lr c0 (callUserI n tco h' c args s).2) : WithinL Ld Lc Lr c0 s :=
+  within_of_le ((monoAt tco n).callUser h' c args s) h
+theorem mW_tramp {h' c args rec s} (h : WithinL Ld Lc Lr c0 (trampI n tco h' c args rec s).2) : WithinL Ld Lc Lr c0 s :=
+  within_of_le ((monoAt tco n).tramp h' c args rec s) h
+end mono
+
+open Lean Elab Tactic Meta in
+/-- for every hypothesis `fI … s = (r, s')` add the fact that the counters of `s` are below those of `s'` -/
+elab "mono_facts" : tactic => withMainContext do
+  let lemmas := #[``mI_eval, ``mI_callNamed, ``mI_builtin, ``mI_callVal, ``mI_evalList, ``mI_mkClos,
+    ``mI_evalDflts, ``mI_evalDecls, ``mW_eval, ``mW_callNamed, ``mW_builtin, ``mW_callVal, ``mW_evalList,
+    ``mW_mkClos, ``mW_evalDflts, ``mW_evalDecls, ``mW_callUser, ``mW_tramp]
+  let mut g ← getMainGoal
+  for ldecl in (← getLCtx) do
+    if ldecl.isImplementationDetail then continue
+    for lem in lemmas do
+      let r ← observing? (do
+        let pf ← mkAppM lem #[ldecl.toExpr]
+        let ty ← inferType pf
+        pure (pf, ty))
+      match r with
+      | some (pf, ty) =>
+        let (_, g') ← (← g.assert `hmono ty pf).intro1
+        g := g'
+        break
+      | none => pure ()
+  replaceMainGoal [g]
+
+/-- discharge a `WithinL` side condition: rewrite with the finished sub-runs, then arithmetic -/
+macro "within_disch" : tactic => `(tactic| (simp only [WithinL, *] at *; omega))
+
+theorem simI_zero (tco Ld Lc Lr c0) : SimI tco Ld Lc Lr c0 0 := by
+  constructor <;> intros <;> simp [eval, callNamed, builtin, callVal, evalList, mkClos, evalDflts, callUser, tramp, evalDecls,
+    evalI, callNamedI, builtinI, callValI, evalListI, mkClosI, evalDfltsI, callUserI, trampI, evalDeclsI]
+
+set_option hygiene false in
+/-- close a leaf of a case of `simI_succ` (`ih`, `h`, `n`, `tco` are the names used there) -/
+macro "leafI" : tactic => `(tactic| first
+  | (simp (disch := within_disch) [ih.eval, ih.evalList, ih.mkClos, ih.evalDflts, ih.callVal, TI_mk, *]; done)
+  | (simp (disch := within_disch) [ih.eval, ih.evalList, ih.mkClos, ih.evalDflts, ih.callVal, TI_mk, *]
+     first
+       | exact ih.eval _ _ _ _ (by assumption)
+       | exact ih.callNamed _ _ _ _ _ (by assumption)
+       | exact ih.builtin _ _ _ _ _ (by assumption)
+       | exact ih.callVal _ _ _ _ _ (by assumption)
+       | exact ih.evalList _ _ _ (by assumption)
+       | exact ih.mkClos _ _ _ (by assumption)
+       | exact ih.evalDflts _ _ _ (by assumption)
+       | exact ih.callUser _ _ _ _ (by assumption)
+       | exact ih.evalDecls _ _ _ (by assumption))
+  | (try simp only []
+     rw [ih.eval _ _ _ _ h]
+     generalize evalI n tco _ _ _ _ = x at *
+     obtain ⟨r, s'⟩ := x
+     cases r <;> simp_all; done)
+  | (simp (disch := within_disch) [ih.eval, *]
+     rw [ih.evalList _ _ _ h]
+     generalize evalListI n tco _ _ _ = x at *
+     obtain ⟨r, s'⟩ := x
+     cases r <;> simp_all; done)
+  | (simp (disch := within_disch) [ih.eval, *]
+     rw [ih.evalDflts _ _ _ h]
+     generalize evalDfltsI n tco _ _ _ = x at *
+     obtain ⟨r, s'⟩ := x
+     cases r <;> simp_all; done))
+
+theorem simI_succ {tco Ld Lc Lr c0 n} (ih : SimI tco Ld Lc Lr c0 n) : SimI tco Ld Lc Lr c0 (n + 1) := by
+    constructor
+    case builtin =>
+      intro fr f args tail s h
+      simp only [builtin, builtinI] at h ⊢
+      repeat' split at h
+      all_goals mono_facts
+      all_goals leafI
+    case callNamed =>
+      intro fr f args tail s h
+      simp only [callNamed, callNamedI] at h ⊢
+      repeat' split at h
+      all_goals mono_facts
+      all_goals leafI
+    case callVal =>
+      intro fr c args tail s h
+      simp only [callVal, callValI] at h ⊢
+      repeat' split at h
+      all_goals mono_facts
+      all_goals leafI
+    case evalList =>
+      intro fr es s h
+      simp only [evalList, evalListI] at h ⊢
+      repeat' split at h
+      all_goals mono_facts
+      all_goals leafI
+    case mkClos =>
+      intro fr f s h
+      simp only [mkClos, mkClosI] at h ⊢
+      repeat' split at h
+      all_goals mono_facts
+      all_goals leafI
+    case evalDflts =>
+      intro fr ps s h
+      simp only [evalDflts, evalDfltsI] at h ⊢
+      repeat' split at h
+      all_goals mono_facts
+      all_goals leafI
+    case evalDecls =>
+      intro fr ds s h
+      simp only [evalDecls, evalDeclsI] at h ⊢
+      repeat' split at h
+      all_goals mono_facts
+      all_goals leafI
+    case eval =>
+      intro fr e tail s h
+      cases e
+      case call f args =>
+        simp only [eval, evalI, cfgL_tco] at h ⊢
+        cases hs : fr.self with
+        | none => simp only [hs] at h ⊢; exact ih.callNamed _ _ _ _ _ h
+        | some p =>
+          obtain ⟨name, c⟩ := p
+          simp only [hs] at h ⊢
+          by_cases h1 : (decide (f = name) && (lookup f fr.env).isNone) = true
+          · simp only [h1, if_true] at h ⊢
+            by_cases h2 : (tail && tco) = true
+            · simp only [h2, if_true] at h ⊢
+              have hx : WithinL Ld Lc Lr c0 (evalListI n tco fr args s).2 := by
+                revert h; rcases evalListI n tco fr args s with ⟨r, s'⟩; cases r <;> simp
+              rw [ih.evalList _ _ _ hx]
+              rcases evalListI n tco fr args s with ⟨r, s'⟩
+              cases r <;> rfl
+            · simp only [h2] at h ⊢; exact ih.callVal _ _ _ _ _ h
+          · simp only [h1] at h ⊢; exact ih.callNamed _ _ _ _ _ h
+      all_goals simp only [eval, evalI] at h ⊢
+      all_goals repeat' split at h
+      all_goals mono_facts
+      all_goals leafI
+    case callUser =>
+      intro hh c args s h
+      simp only [callUser, callUserI, cfgL_call] at h ⊢
+      cases he : firstErr args with
+      | some e => simp
+      | none =>
+        simp only [he] at h ⊢
+        have hw := mW_tramp h
+        have hlt : ¬ ((TI c0 s).calls + 1 ≥ Lc) := by simp only [WithinL, TI_calls] at hw ⊢; omega
+        simp only [hlt, if_false]
+        have e := ih.tramp hh c args 0 { s with calls := s.calls + 1 } h
+        simpa [TI, Nat.add_assoc] using e
+    case tramp =>
+      intro hh c args rec s h
+      cases c
+      case clos f d env =>
+        simp only [tramp, trampI, cfgL_depth, cfgL_rec] at h ⊢
+        cases hn : f.name <;> simp only [hn] at h ⊢
+        all_goals repeat' split at h
+        all_goals mono_facts
+        all_goals (
+          have hD : ¬ (hh + 1 ≥ Ld) := by simp only [WithinL, *] at *; omega
+          simp only [hD, decide_false, Bool.false_eq_true, if_false]
+          rw [show TI c0 s = TI c0 { out := s.out, calls := s.calls, maxH := max s.maxH (hh + 1), maxRec := s.maxRec } from rfl])
+        all_goals first
+          | (simp (disch := within_disch) [ih.evalDecls, ih.eval, *]; done)
+          | (rename_i _ ps hps _ fr' st' hdl _ newArgs st'' hev hm2 hm1 hm0
+             have hws' : WithinL Ld Lc Lr c0 st' := by simp only [WithinL] at *; omega
+             have hws'' : WithinL Ld Lc Lr c0 st'' := by simp only [WithinL] at *; omega
+             have e := ih.evalDecls _ _ _ ((congrArg (fun p => WithinL Ld Lc Lr c0 p.2) hdl).mpr hws')
+             rw [hdl] at e
+             have e2 := ih.eval _ _ _ _ ((congrArg (fun p => WithinL Ld Lc Lr c0 p.2) hev).mpr hws'')
+             rw [hev] at e2
+             have hR : ¬ (rec + 1 > Lr) := by simp only [WithinL] at hm0; omega
+             simp only [hps, e, mapTIE_mk, e2, mapTI_mk, hR, decide_false, Bool.false_eq_true, if_false]
+             exact ih.tramp _ _ _ _ _ h)
+          | (rename_i _ ps hps _ fr' st' hdl _ hneg hm1 hm0
+             have e := ih.evalDecls _ _ _ ((congrArg (fun p => WithinL Ld Lc Lr c0 p.2) hdl).mpr hm0)
+             rw [hdl] at e
+             simp only [hps, e, mapTIE_mk]
+             rw [ih.eval _ _ _ _ h]
+             generalize evalI n tco _ _ _ _ = x at *
+             obtain ⟨r, s'⟩ := x
+             cases r <;> simp_all; done)
+          | (rename_i _ ps hps _ r st' hdl hm
+             have hws : WithinL Ld Lc Lr c0 st' := h
+             have e := ih.evalDecls _ _ _ ((congrArg (fun p => WithinL Ld Lc Lr c0 p.2) hdl).mpr hws)
+             rw [hdl] at e
+             simp only [hps, e, mapTIE_mk, mapTI_mk])
+      all_goals simp [tramp, trampI]
+
+theorem simI (tco Ld Lc Lr c0) (n : Nat) : SimI tco Ld Lc Lr c0 n := by
+  induction n with
+  | zero => exact simI_zero _ _ _ _ _
+  | succ n ih => exact simI_succ ih
+
+/-! the instrumented run never stops: it has no violation outcome -/
+
+structure NoViolI (tco : Bool) (n : Nat) : Prop where
+  eval : ∀ fr e tail s, Res.isViol (evalI n tco fr e tail s).1 = false
+  callNamed : ∀ fr f args tail s, Res.isViol (callNamedI n tco fr f args tail s).1 = false
+  builtin : ∀ fr f args tail s, Res.isViol (builtinI n tco fr f args tail s).1 = false
+  callVal : ∀ fr c args tail s, Res.isViol (callValI n tco fr c args tail s).1 = false
+  evalList : ∀ fr es s, exViol (evalListI n tco fr es s).1 = false
+  mkClos : ∀ fr f s, Res.isViol (mkClosI n tco fr f s).1 = false
+  evalDflts : ∀ fr ps s, exViol (evalDfltsI n tco fr ps s).1 = false
+  callUser : ∀ h c args s, Res.isViol (callUserI n tco h c args s).1 = false
+  tramp : ∀ h c args rec s, Res.isViol (trampI n tco h c args rec s).1 = false
+  evalDecls : ∀ fr ds s, exViol (evalDeclsI n tco fr ds s).1 = false
+
+theorem isViol_of_ne {x : Res × StI} (h : ∀ k s, x = (Res.viol k, s) → False) : Res.isViol x.1 = false := by
+  obtain ⟨r, s⟩ := x
+  cases r <;> simp_all
+
+theorem NoViolI.eval' {tco n} (ih : NoViolI tco n) {fr e tail s r s'}
+    (h : evalI n tco fr e tail s = (r, s')) : Res.isViol r = false := by
+  have := ih.eval fr e tail s; rw [h] at this; exact this
+theorem NoViolI.mkClos' {tco n} (ih : NoViolI tco n) {fr f s r s'}
+    (h : mkClosI n tco fr f s = (r, s')) : Res.isViol r = false := by
+  have := ih.mkClos fr f s; rw [h] at this; exact this
+theorem NoViolI.evalList' {tco n} (ih : NoViolI tco n) {fr es s r s'}
+    (h : evalListI n tco fr es s = (.error r, s')) : Res.isViol r = false := by
+  have := ih.evalList fr es s; rw [h] at this; exact this
+theorem NoViolI.evalDflts' {tco n} (ih : NoViolI tco n) {fr ps s r s'}
+    (h : evalDfltsI n tco fr ps s = (.error r, s')) : Res.isViol r = false := by
+  have := ih.evalDflts fr ps s; rw [h] at this; exact this
+theorem NoViolI.evalDecls' {tco n} (ih : NoViolI tco n) {fr ds s r s'}
+    (h : evalDeclsI n tco fr ds s = (.error r, s')) : Res.isViol r = false := by
+  have := ih.evalDecls fr ds s; rw [h] at this; exact this
+
+theorem noViolI (tco : Bool) (n : Nat) : NoViolI tco n := by
+  induction n with
+  | zero => constructor <;> intros <;> simp [evalI, callNamedI, builtinI, callValI, evalListI, mkClosI, evalDfltsI, callUserI, trampI, evalDeclsI]
+  | succ n ih =>
+    constructor
+    case eval =>
+      intro fr e tail s
+      simp only [evalI]
+      repeat' split
+      all_goals first
+        | rfl
+        | exact ih.mkClos _ _ _
+        | exact ih.callVal _ _ _ _ _
+        | exact ih.callNamed _ _ _ _ _
+        | exact ih.eval _ _ _ _
+        | exact ih.evalList' (by assumption)
+        | exact ih.eval' (by assumption)
+    case callNamed =>
+      intro fr f args tail s
+      simp only [callNamedI]
+      repeat' split
+      all_goals first
+        | exact ih.callVal _ _ _ _ _
+        | exact ih.builtin _ _ _ _ _
+    case builtin =>
+      intro fr f args tail s
+      simp only [builtinI]
+      repeat' split
+      all_goals first
+        | rfl
+        | exact prim_not_viol _ _
+        | exact ih.eval _ _ _ _
+        | exact ih.evalList' (by assumption)
+    case callVal =>
+      intro fr c args tail s
+      simp only [callValI]
+      repeat' split
+      all_goals first
+        | rfl
+        | exact ih.callUser _ _ _ _
+        | exact ih.evalList' (by assumption)
+    case evalList =>
+      intro fr es s
+      simp only [evalListI]
+      repeat' split
+      all_goals first
+        | rfl
+        | exact ih.evalList _ _ _
+        | exact ih.eval' (by assumption)
+    case mkClos =>
+      intro fr f s
+      simp only [mkClosI]
+      repeat' split
+      all_goals first
+        | rfl
+        | exact ih.evalDflts' (by assumption)
+    case evalDflts =>
+      intro fr ps s
+      simp only [evalDfltsI]
+      repeat' split
+      all_goals first
+        | rfl
+        | exact ih.evalDflts _ _ _
+        | exact ih.eval' (by assumption)
+    case callUser =>
+      intro h c args s
+      simp only [callUserI]
+      repeat' split
+      all_goals first
+        | rfl
+        | exact ih.tramp _ _ _ _ _
+    case tramp =>
+      intro h c args rec s
+      simp only [trampI]
+      repeat' split
+      all_goals first
+        | rfl
+        | exact ih.tramp _ _ _ _ _
+        | exact ih.eval _ _ _ _
+        | exact ih.evalDecls' (by assumption)
+    case evalDecls =>
+      intro fr ds s
+      simp only [evalDeclsI]
+      repeat' split
+      all_goals first
+        | rfl
+        | exact ih.evalDecls _ _ _
+        | exact ih.eval' (by assumption)
+        | exact ih.mkClos' (by assumption)
+
 
 end XrayModel.CoreLimitsSim
